@@ -63,7 +63,7 @@ Proof.
 Qed.
 
 Lemma line_scale_pos f t D : 0 < D -> 0 < line_scale f t D.
-Proof. unfold line_scale, rn_den, ns_per_s. lia. Qed.
+Proof. unfold line_scale, line_scale_z, rn_den, ns_per_s. lia. Qed.
 
 Lemma inject_Z_sub a b : (inject_Z (a - b) == inject_Z a - inject_Z b)%Q.
 Proof. unfold Z.sub. rewrite inject_Z_plus, inject_Z_opp. reflexivity. Qed.
@@ -73,7 +73,7 @@ Ltac qz_push := unfold qz; rewrite ?inject_Z_plus, ?inject_Z_mult, ?inject_Z_sub
 Lemma cum_line_frac f t D x : 0 < D ->
   (cum_line f t D x == qz (Npoly (rn_to f t - rn_from f t) (rn_from f t) D x) / qz (line_scale f t D))%Q.
 Proof.
-  intros HD. unfold cum_line, Npoly, line_scale, rn_to, rn_from, rn_den.
+  intros HD. unfold cum_line, Npoly, line_scale, line_scale_z, rn_to, rn_from, rn_den.
   destruct f as [a b], t as [c d]. cbn [Qnum Qden].
   rewrite (Qmake_Qdiv a b), (Qmake_Qdiv c d).
   rewrite Pos2Z.inj_mul. qz_push.
